@@ -81,7 +81,7 @@ impl Default for Profile {
             p_recv_all: 50,
             timeouts: vec![0, 5, 20, 100],
             faults: true,
-            monitors: true,
+            monitors: false,
             p_full_spin: 5,
             min_tasks: 2,
             p_obs_counts: 20,
@@ -416,6 +416,9 @@ pub fn gen_case(rng: &mut Rng, p: &Profile) -> Case {
 /// the profile used by property `prop`
 pub fn profile_for(prop: &str) -> Profile {
     let mut p = Profile::default();
+    // the happens-before / lifetime monitors end a run at their first report; they are switched on only in the
+    // checks that own those reports, so that every other check sees the consequences for its own property
+    p.monitors = matches!(prop, "C04" | "C07" | "C13" | "C15" | "C17");
     match prop {
         "C01" => {
             p.p_close = 12;
@@ -464,7 +467,9 @@ pub fn profile_for(prop: &str) -> Profile {
         }
         "C10" => {
             p.p_close = 60;
-            p.p_observe = 20;
+            p.p_observe = 25;
+            p.p_obs_counts = 40;
+            p.p_handle_ops = 25;
             p.senders = (1, 2);
             p.receivers = (1, 2);
             p.both = (0, 1);
